@@ -16,6 +16,12 @@ def cases(tier, r):
     for s in GOOD + [["any"], ["int", 0], ["int", 9], ["bad", "float"], ["bad", "str"], ["int", -1], ["int", 255]]:
         for via in ("A", "D"):
             ps.append({"x": "mask", "via": via, "tip": {"k": "one", "s": s}})
+    # collections with ONE member are collections: the member rules apply (Tip.Any, 0, 9, 2.5 are not members of a selection)
+    for s in GOOD[:3] + GOOD[8:10] + [["any"], ["int", 0], ["int", 9], ["bad", "float"], ["bad", "str"], ["int", -1]]:
+        for present in ("list", "tuple", "set", "iter"):
+            if present == "set" and s[0] == "bad":
+                continue
+            ps.append({"x": "mask", "via": "A" if present in ("list", "set") else "D", "tip": {"k": "coll", "x": [list(s)], "present": present}})
     # every sequence up to length 3 over the 16 symbols (quick: all of length <= 2, a seeded third of length 3)
     for n in (1, 2, 3):
         for seq in itertools.product(GOOD, repeat=n):
